@@ -32,7 +32,7 @@ ASSUMPTIONS = [
 ]
 OBLIGATIONS = {"dscore:m=1": 20, "dscore:m>=2": 50, "dscore:perfect": 20,
                "dscore:inverse": 20, "dscore:heavy-ties": 20,
-               "dscore:identical-ens": 10, "dscore:wide-range": 20, "dscore:fine-lattice": 10, "eps:non-default": 20,
+               "dscore:identical-ens": 10, "dscore:wide-range": 20, "dscore:fine-lattice": 10, "eps:non-default": 20, "eps:below-small-gaps": 20,
                "dscore:constant-members": 5, "dscore:definition": 50, "pit:long-series": 4,
                "ad:extreme-values": 3, "ad:near-duplicates": 10, "ad:reject:several-outside": 10, "ensrank:ref": 50, "pit:random": 30,
                "pit:plain": 30, "pit:sudo": 30, "cvm": 50, "ad": 50, "ad:reject": 30,
@@ -251,6 +251,28 @@ def run_dscore_case(ctx, case, rng=None):
         ctx.check("dscore.tolerance-below-gap", abs(De - D) <= 1e-12,
                   "dscore|depends-on-tie-tolerance-below-the-gaps", case,
                   lambda: {"eps": case["eps"], "D_default": D, "D_eps": De})
+    if "eps" in case and m > 1:
+        # the same forecasts in a small unit (all values times 2**-30 or 2**-40: ties stay
+        # exact, the gaps of 0.5 become 4.7e-10 / 4.5e-13), with a tie tolerance the
+        # caller chose below those gaps: the same comparison, ranks and score
+        for k, epss in ((30, 1e-11), (40, 1e-14)):
+            ctx.tag("eps:below-small-gaps")
+            sims = np.ascontiguousarray(sim * 2.0 ** -k)
+            fms = np.zeros((n, n))
+            rks = np.zeros(n)
+            ctx.api("ensrank")
+            ierr = C().ensrank(epss, sims, fms, rks)
+            ctx.check("ensrank.small-unit", ierr == 0 and
+                      bool(np.allclose(fms, rf, rtol=0, atol=1e-12)) and
+                      bool(np.allclose(rks, rr, rtol=0, atol=1e-12)),
+                      "ensrank|differs-for-values-in-a-small-unit-with-a-smaller-tolerance",
+                      case, lambda: {"unit": f"2**-{k}", "eps": epss, "ierr": ierr,
+                                     "ranks": rks.tolist(), "ref": rr.tolist()})
+            ctx.api("dscore")
+            Ds = call(m_.dscore, obs, sims, eps=epss)
+            ctx.check("dscore.small-unit", abs(Ds - D) <= 1e-12,
+                      "dscore|differs-for-values-in-a-small-unit-with-a-smaller-tolerance",
+                      case, lambda: {"unit": f"2**-{k}", "eps": epss, "D": D, "D_small": Ds})
     ctx.check("dscore.range", isinstance(D, float) and -1e-12 <= D <= 1 + 1e-12,
               "dscore|range", case, lambda: {"D": repr(D)})
     tags = case.get("tags", [])
